@@ -32,7 +32,7 @@ PROPERTY = {
 }
 
 OPS = ["run", "run", "get_run_func", "get_jacobian_func", "get_nodes", "get_edges", "get_edge", "collect_edges",
-       "get_node_template", "getitem", "to_yaml", "deepcopy", "update_template"]
+       "get_node_template", "getitem", "to_yaml", "deepcopy", "update_template", "copy_then_update"]
 
 
 def snapshot(circ, seen=None):
@@ -198,6 +198,26 @@ class Interp:
             if not self.hier and op.get("i", 0) % 2:
                 nm = self.spec["nodes"][0][0]
                 c.update_template(nodes={nm + "_extra": c.nodes[nm]})
+        elif k == "copy_then_update":
+            # a copy-making operation, then IN-PLACE changes of the copy (values of a node variable and of an inherited
+            # edge): the template the copy was made from (and its sibling) must stay as they were
+            top = [e for e in self.spec["edges"] if not e.get("scope")]
+            how = op.get("i", 0) % 3
+            if how == 0 and top:
+                e0 = top[op.get("i", 0) % len(top)]
+                d = c.update_template(edges=[(e0["s"], e0["t"], None, {"weight": 0.123})])
+                self.kinds[-1] = "copy_then_update:derive_edges"
+            elif how == 1:
+                d = c.update_template()
+                self.kinds[-1] = "copy_then_update:update_template"
+            else:
+                d = copy.deepcopy(c)
+                self.kinds[-1] = "copy_then_update:deepcopy"
+            path = sp[op.get("i", 0) % len(sp)]
+            d.update_var(node_vars={path: 0.7771})
+            if top:
+                e1 = top[(op.get("i", 0) // 3) % len(top)]
+                d.update_var(edge_vars=[(e1["s"], e1["t"], {"weight": 9.5})])
         else:
             raise HarnessError(k)
 
@@ -230,7 +250,7 @@ def _first_diff(a, b, path=""):
             if d:
                 return d
         return None
-    if isinstance(a, list):
+    if isinstance(a, (list, tuple)):
         if len(a) != len(b):
             return f"{path}: length {len(a)} -> {len(b)}"
         for i, (x, y) in enumerate(zip(a, b)):
@@ -261,7 +281,8 @@ class HistoryArm(Arm):
     steps = {"quick": 8, "thorough": 10}
     min_per_shard = 10
     case_timeout = 300
-    required_labels = ("op:to_yaml", "op:collect_edges", "op:run", "op:get_jacobian_func", "hierarchical", "flat")
+    required_labels = ("op:to_yaml", "op:collect_edges", "op:run", "op:get_jacobian_func", "hierarchical", "flat",
+                       "op:copy_then_update:derive_edges", "op:copy_then_update:deepcopy")
 
     def machine(self, ctx, sink, budget_hook):
         self_ = self
